@@ -67,7 +67,11 @@ func (e *Engine) GroundObligations(prop, tier string) ([]*Obligation, []string) 
 		g.jumpTests()
 		g.bpfOpcodes()
 	case "C13":
-		g.globalsImmutable()
+		g.globalsImmutable(nil)
+	case "C16":
+		// the determinism half of C16's monotonicity argument: the parser tables and expressions are read-only
+		g.globalsImmutable([][2]string{{"disasm", "x86_64Parser"}, {"disasm", "i386Parser"}, {"disasm", "x86_64SyscallRegex"}, {"disasm", "x86_64RawSyscallRegex"},
+			{"arch", "I386"}, {"arch", "X86_64"}, {"arch", "syscalls386"}, {"arch", "syscallsX86_64"}})
 	}
 	return g.obls, g.notes
 }
@@ -806,11 +810,17 @@ func (g *groundCtx) actionTable() {
 
 // ---- C13: package-level data read on the compile / lookup / text paths is never written after init ----
 
-func (g *groundCtx) globalsImmutable() {
+func (g *groundCtx) globalsImmutable(only [][2]string) {
 	type gv struct{ pkg, name string }
 	vars := []gv{{"seccomp", "nativeEndian"}, {"seccomp", "actionNames"}, {"seccomp", "filterFlagNames"}, {"seccomp", "filterFlags"}, {"seccomp", "Operations"},
 		{"arch", "arches"}, {"arch", "ARM"}, {"arch", "AARCH64"}, {"arch", "I386"}, {"arch", "X32"}, {"arch", "X86_64"},
 		{"arch", "syscallsARM"}, {"arch", "syscallsAARCH64"}, {"arch", "syscalls386"}, {"arch", "syscallsX32"}, {"arch", "syscallsX86_64"}, {"arch", "auditArchNames"}}
+	if only != nil {
+		vars = nil
+		for _, o := range only {
+			vars = append(vars, gv{o[0], o[1]})
+		}
+	}
 	for _, v := range vars {
 		p := g.e.pkgNamed(v.pkg)
 		if p == nil {
